@@ -12,12 +12,19 @@ comma separated code points, `-` = empty):
                                         repeat in a sequence; val = s<str> | i<int> | T | F | N
   class K <mro> <bases|-> <pmap|~> <wrappers|->
                                         class K(bases or MCallerHttp): [_HTTP_PREFIX_MAP = pmap]; wrappers
-                                        name=<comps>/name=<comps>=<inner>…, comps = n | e | comp+comp…; a wrapper with
-                                        <inner> is `def name(self, …): return self.<inner>(…)`; with `*` for <inner> the
-                                        body reaches get_conn() through a helper method shared by all such wrappers; every other wrapper is
+                                        name=<comps>/name=<comps>=<inner>/name=<comps>=<inner>=<flags>…, comps = n | e |
+                                        comp+comp…; a wrapper with <inner> is `def name(self, …): return self.<inner>(…)`;
+                                        with `*` for <inner> the body reaches get_conn() through a helper method shared by
+                                        all such wrappers; `.` = no inner; every other wrapper is
                                         `@method_http(None, comps) def name(self, …): self.get_conn().<verb>(path + "~<k>", …)`
                                         with k = number of the class (order of creation); mro = K.__mro__ as Python
-                                        computes it (names, K first)
+                                        computes it (names, K first). flags (how the body is written / when it runs):
+                                        g = a generator function (`yield <what the body computes>`), y = a generator
+                                        function that delegates to a helper generator (`yield from self._gen_conn(…)`,
+                                        only without <inner>), a = a coroutine function (`async def`): the body runs when
+                                        the returned object is driven, by whoever drives it; d = the body drives the object
+                                        `self.<inner>(…)` returns itself (`_drive(self.<inner>(…))`) instead of handing it
+                                        on. The result of every `call` is driven to its value by the harness (plain code).
   mk    C <target> <own> <cls>          C = cls(target[, adapters=own | credentials])
   add   C <adapter>                     C.add_adapter(a)
   caller K <target> <class>             K = <class>(target)
@@ -468,14 +475,19 @@ def parse_comps_tok(tok):
 
 
 def parse_wrappers(tok):
-    """[(method name, components, inner)]: inner = name of the wrapper the body calls instead of making the request
-    itself (`name=comps=inner`), or None"""
+    """[(method name, components, inner, flags)]: inner = name of the wrapper the body calls instead of making the
+    request itself, `*` (shared helper) or None; flags: see the protocol (g / y / a: the body runs when the returned
+    object is driven; d: the body drives the inner wrapper's result itself)"""
     if tok == "-":
         return []
     out = []
     for w in tok.split("/"):
         f = w.split("=")
-        out.append((dec_str(f[0]), parse_comps_tok(f[1]), (f[2] if f[2] == "*" else dec_str(f[2])) if len(f) > 2 else None))
+        inner = None if len(f) < 3 or f[2] == "." else ("*" if f[2] == "*" else dec_str(f[2]))
+        flags = f[3] if len(f) > 3 else ""
+        if len(f) > 4 or set(flags) - set("gyad") or ("y" in flags and inner is not None):
+            raise ValueError("bad wrapper " + w)
+        out.append((dec_str(f[0]), parse_comps_tok(f[1]), inner, flags))
     return out
 
 
@@ -540,6 +552,58 @@ def _shared_conn(self):
     return self.get_conn()
 
 
+def _gen_conn(self, fn, suffix):
+    """one helper generator to which generator wrappers of different components delegate (`yield from`)"""
+    yield fn(self.get_conn(), suffix)
+
+
+def _drive(x):
+    """what consuming code does with the result of a wrapper: a generator is advanced to its first value, a coroutine is
+    run to its result (both as often as the value is such an object again); anything else is the value"""
+    import inspect
+    while True:
+        if inspect.isgenerator(x):
+            g = x
+            try:
+                x = next(g)
+            finally:
+                g.close()
+        elif inspect.iscoroutine(x):
+            c = x
+            try:
+                c.send(None)
+            except StopIteration as stop:
+                x = stop.value
+            else:
+                c.close()
+                raise RuntimeError("coroutine wrapper awaits something")
+        else:
+            return x
+
+
+def wrapper_source(m, idx, inner, flags):
+    """source of the wrapper body `m` of class number idx (see the protocol)"""
+    if inner is None and "y" in flags:
+        value = None
+    elif inner is None:
+        value = "fn(self.get_conn(), '~%d')" % idx
+    elif inner == "*":
+        value = "fn(self._shared_conn(), '~%d')" % idx
+    else:
+        value = "self.%s(fn)" % inner
+        if "d" in flags:
+            value = "_drive(%s)" % value
+    if "y" in flags:
+        stmt, head = "yield from self._gen_conn(fn, '~%d')" % idx, "def"
+    elif "g" in flags:
+        stmt, head = "yield " + value, "def"
+    elif "a" in flags:
+        stmt, head = "return " + value, "async def"
+    else:
+        stmt, head = "return " + value, "def"
+    return "%s %s(self, fn):\n    'http wrapper'\n    %s\n" % (head, m, stmt)
+
+
 class _BadOp(Exception):
     """a line names an object the history has not made (the driver answers `bad-op` too)"""
 
@@ -588,15 +652,13 @@ class Env:
         if pmap_tok != "~":
             body["_HTTP_PREFIX_MAP"] = parse_pairs(pmap_tok)
         idx = len(self.class_order)
-        for m, comps, inner in parse_wrappers(wrappers_tok):
-            ns = {}
+        for m, comps, inner, flags in parse_wrappers(wrappers_tok):
+            ns = {"_drive": _drive}
+            exec(wrapper_source(m, idx, inner, flags), ns)
             if inner == "*":    # get_conn() is reached through a helper method shared by all such wrappers
-                exec("def %s(self, fn):\n    'http wrapper'\n    return fn(self._shared_conn(), '~%d')\n" % (m, idx), ns)
                 body["_shared_conn"] = _shared_conn
-            elif inner is None:
-                exec("def %s(self, fn):\n    'http wrapper'\n    return fn(self.get_conn(), '~%d')\n" % (m, idx), ns)
-            else:       # a wrapper that is implemented by another wrapper
-                exec("def %s(self, fn):\n    'http wrapper'\n    return self.%s(fn)\n" % (m, inner), ns)
+            if "y" in flags:    # ... through a helper generator shared by all such wrappers
+                body["_gen_conn"] = _gen_conn
             body[m] = mh.method_http(None, comps)(ns[m])
         cls = type(mh.MCallerHttp)("Caller%d" % idx, bases, body)
         self.classes[name] = cls
@@ -666,7 +728,8 @@ class Env:
         snap = self.snapshot(data)
         n0 = len(self.captured)
         try:
-            rv = runner(lambda conn, suffix="": self.do_verb(conn, verb, path, params, data, headers, f[6] == "1", suffix))
+            # the result of a generator / coroutine wrapper is consumed here, by plain code (no wrapper on the stack)
+            rv = _drive(runner(lambda conn, suffix="": self.do_verb(conn, verb, path, params, data, headers, f[6] == "1", suffix)))
         except Exception as e:
             reqs = self.captured[n0:]
             outer = [q for q in reqs if not any(q is i for i in self.inner)]
@@ -927,8 +990,9 @@ class ClassTable:
         bases = [int(b) for b in bases_tok.split(";")] if bases_tok != "-" else []
         ws = parse_wrappers(wrappers_tok)
         self.decl[name] = {"bases": bases, "pmap": None if pmap_tok == "~" else parse_pairs(pmap_tok),
-                           "wrappers": {m: c for m, c, _ in ws},
-                           "inner": {m: i for m, _, i in ws if i is not None and i != "*"}}
+                           "wrappers": {m: c for m, c, _, _ in ws},
+                           "inner": {m: i for m, _, i, _ in ws if i is not None and i != "*"},
+                           "flags": {m: fl for m, _, _, fl in ws}}
         self.order.append(name)
         sh = type("S%d" % name, tuple(self.shadow[b] for b in bases) or (object,), {})
         self.shadow[name] = sh
@@ -947,6 +1011,21 @@ class ClassTable:
                 raise KeyError(method)
             if method not in self.decl[c]["inner"]:
                 return method, c
+            method = self.decl[c]["inner"][method]
+        raise KeyError("delegation cycle")
+
+    def chain(self, name, method):
+        """the wrappers a call goes through, outermost first: [(method, class of the body, flags)]"""
+        out = []
+        for _ in range(16):
+            for c in self.mro(name):
+                if method in self.decl[c]["wrappers"]:
+                    break
+            else:
+                raise KeyError(method)
+            out.append((method, c, self.decl[c]["flags"].get(method, "")))
+            if method not in self.decl[c]["inner"]:
+                return out
             method = self.decl[c]["inner"][method]
         raise KeyError("delegation cycle")
 
@@ -1418,11 +1497,12 @@ def enc_comps(comps):
 
 
 def enc_wrappers(ws):
-    """ws: {name: comps} or {name: (comps, inner)}"""
+    """ws: {name: comps} or {name: (comps, inner)} or {name: (comps, inner | None, flags)}"""
     out = []
     for m, c in ws.items():
         if isinstance(c, tuple):
-            out.append("%s=%s=%s" % (enc_str(m), enc_comps(c[0]), "*" if c[1] == "*" else enc_str(c[1])))
+            inner = "." if c[1] is None else "*" if c[1] == "*" else enc_str(c[1])
+            out.append("%s=%s=%s" % (enc_str(m), enc_comps(c[0]), inner) + ("=" + c[2] if len(c) > 2 and c[2] else ""))
         else:
             out.append("%s=%s" % (enc_str(m), enc_comps(c)))
     return "/".join(out) if out else "-"
@@ -1562,7 +1642,31 @@ class Builder:
         self.lines.append("pairs %d %s %s" % (n, kind, enc_typed_pairs(items)))
         return str(n)
 
+    def deferred_bodies(self, ws):
+        """the dimension "when does the body of a wrapper run": in a third of the classes (two thirds of those with
+        wrappers that call wrappers) some wrappers are generator
+        functions (plain / delegating to a helper generator) or coroutine functions, and wrappers that call another
+        wrapper either hand its result on or drive it inside their own body"""
+        rng = self.rng
+        nested = any(isinstance(c, tuple) and c[1] not in (None, "*") for c in ws.values())
+        if not ws or rng.random() >= (0.7 if nested else 0.3):
+            return ws
+        out = {}
+        for m, c in ws.items():
+            comps, inner = (c[0], c[1]) if isinstance(c, tuple) else (c, None)
+            flags = ""
+            if rng.random() < 0.55:
+                flags = rng.choice("ggaa" + ("yy" if inner is None else ""))
+            if inner not in (None, "*") and rng.random() < 0.6:
+                flags += "d"
+            out[m] = (comps, inner, flags) if flags else c
+            for fl in flags:
+                self.kinds.add("wrapper:" + {"g": "generator", "y": "generator-via-helper-generator", "a": "coroutine",
+                                             "d": "drives-inner-result"}[fl])
+        return out
+
     def new_class(self, bases, pmap, wrappers):
+        wrappers = self.deferred_bodies(wrappers)
         n = self.name()
         self.table.add(n, ";".join(str(b) for b in bases) if bases else "-", "~" if pmap is None else enc_pairs(pmap),
                        enc_wrappers(wrappers))
@@ -1721,6 +1825,22 @@ class Builder:
         self.lines.append("call %d %s %s" % (k, enc_str(m), self.request_args()))
         self.lastid()
         self.kinds.add("call:" + ("none" if comps is None else "comp"))
+        # when / on whose stack the body that makes the request runs
+        chain = self.table.chain(cls, m)
+        deferred = [bool(set(fl) & set("gya")) for _, _, fl in chain]
+        if any(deferred):
+            # the frame that drives the innermost deferred object: a wrapper with `d` further out, else plain code
+            last = max(i for i, d in enumerate(deferred) if d)
+            drivers = [i for i in range(last) if "d" in chain[i][2]]
+            if not drivers:
+                self.kinds.add("call:deferred:driven-by-plain-code" + ("" if last == 0 else "-handed-on"))
+            else:
+                i = max(drivers)
+                c_out = self.table.decl[chain[i][1]]["wrappers"][chain[i][0]]
+                c_in = self.table.decl[chain[-1][1]]["wrappers"][chain[-1][0]]
+                self.kinds.add("call:deferred:driven-inside-wrapper" + ("-of-other-component" if c_out != c_in else ""))
+            if deferred[-1]:
+                self.kinds.add("call:deferred:request-made-by-deferred-body")
 
     def step(self):
         rng = self.rng
@@ -1894,6 +2014,19 @@ def _corpus():
                    "call 8 %s get %s n n n E 0" % (e("get_user"), e("/u/3")), "call 8 %s get %s n n n E 0" % (e("get_order"), e("/o/4")),
                    "call 8 %s get %s n n n E 0" % (e("whoami"), e("/me")), "call 9 %s get %s n n n E 0" % (e("whoami"), e("/me")),
                    "call 9 %s get %s n n n E 0" % (e("get_order"), e("/o/4")), "call 9 %s get %s n n n E 0" % (e("get_user"), e("/u/3"))]},
+        # generator / coroutine wrappers (the body runs when the result is driven): driven by plain code, driven inside
+        # a wrapper of another component, handed on by such a wrapper, through the shared helper / a helper generator,
+        # a generator wrapper that drives a generator wrapper overridden in a subclass
+        {"lines": ["class 1 1 - %s=%s;%s=%s %s" % (
+                       e("users"), e("/users-srv"), e("stats"), e("/stats-srv"), enc_wrappers({
+                           "iter_users": (["users"], None, "g"), "report": (["stats"], "iter_users", "d"),
+                           "lazy": (["stats"], "iter_users", ""), "co": (["users"], "*", "a"),
+                           "pages": (["users"], None, "y"), "totals": (["stats"], None, "y"),
+                           "gen_report": (["stats"], "iter_users", "gd"), "aco": (None, "co", "ad")})),
+                   "class 2 2;1 1 ~ %s" % enc_wrappers({"iter_users": (["stats"], None, "a")}),
+                   "mk 3 s=%s o=t/%s T" % (e("http://srv:8080"), e("t0k3n")), "caller 4 c=3 1", "caller 5 c=3 2"] +
+                  ["call %d %s get %s n n n %s 0" % (k, e(m), e("/list"), enc_json([1, 2]))
+                   for k in (4, 5) for m in ("report", "iter_users", "lazy", "totals", "pages", "co", "gen_report", "aco", "report")]},
         # mix-ins with a same-named wrapper bound to different components; diamond where one branch overrides
         {"lines": ["class 1 1 - ~ %s=%s" % (e("status"), e("front")), "class 2 2 - ~ %s=%s" % (e("status"), e("back")),
                    "class 3 3;1;2 1;2 %s=%s;%s=%s -" % (e("front"), e("/front/api"), e("back"), e("/back")),
@@ -2044,6 +2177,15 @@ def shrink(case):
             yield {"lines": cand, "meta": case.get("meta", {})}
     for i, l in enumerate(lines):
         f = l.split()
+        if f[0] == "class" and f[5] != "-":
+            # an ordinary body instead of a generator / coroutine / driving one
+            ws = f[5].split("/")
+            for j, w in enumerate(ws):
+                g = w.split("=")
+                if len(g) == 4:
+                    g = g[:3] if g[2] != "." else g[:2]
+                    yield {"lines": lines[:i] + [" ".join(f[:5] + ["/".join(ws[:j] + ["=".join(g)] + ws[j + 1:])])] +
+                           lines[i + 1:], "meta": case.get("meta", {})}
         if f[0] in ("req", "call"):
             k = 2 if f[0] == "req" else 3
             for j, repl in ((k + 2, "n"), (k + 3, "n"), (k + 4, "n"), (k, "get"), (k + 5, "E"), (k + 6, "0")):
@@ -2082,7 +2224,10 @@ RULE = ("operation histories (3-10 steps, every tenth 10-24) over HttpConn / BAu
         "(unwrap, len, filter, nullify, raising), adapters that send a nested request through a sibling / parent "
         "connection (first use only / every time, request / response side) and adapters that rebind req_args.params / .data / .headers, given singly or as (re-used, later mutated) lists, add_adapter on any "
         "layer, MCallerHttp subclasses (single, chains that override wrappers / the prefix map, mix-ins and diamonds with "
-        "same-named wrappers bound to different components, wrappers whose body calls another wrapper, wrappers that reach get_conn() through a shared helper), a fifth of the "
+        "same-named wrappers bound to different components, wrappers whose body calls another wrapper, wrappers that reach get_conn() through a shared helper; in a third of "
+        "the classes wrappers written as generator functions (plain / delegating to a shared helper generator) or coroutine "
+        "functions, whose body runs when the result is driven - by plain code, inside a wrapper of another component that "
+        "drives it, or after such a wrapper handed it on), a fifth of the "
         "histories with the package's logger at DEBUG, clone with nothing / one adapter / a list, component calls "
         "through the prefix cache, params as str dicts / dicts with non-str values / lists and tuples of pairs with repeated "
         "keys, requests with every verb and raw do_request methods, str / bytes / json bodies, caller header and "
@@ -2109,6 +2254,7 @@ THEOREMS = [
     "C17.rebinding_adapters", "C17.request_uses_rebound", "C17.request_response", "C17.nested_outer_unaffected",
     "C17.exception_propagates", "C17.frame", "C17.frame_reachable", "C17.chain_stable", "C17.aliasing_facts",
     "C17.caller_unchanged", "C17.clone_list", "C17.get_conn_cached", "C17.get_conn_first", "C17.call_component",
+    "C17.frame_meta_innermost", "C17.deferred_body_own_component", "C17.call_component_innermost",
     "C17.nested_call_innermost", "C17.metas_first_base", "C17.caller_pmap",
 ]
 
@@ -2128,7 +2274,14 @@ LEVEL_TEXT = ("Kernel-checked for all heaps/histories/arguments on a heap model 
               "the caller (caller_unchanged, aliasing_facts); "
               "clone with nothing / one adapter / a list (clone_list); prefix cache (get_conn_*); params read as an association "
               "list, every pair kept in order (params_all_pairs); a wrapper call uses the components of the class's metas "
-              "table, which is own-wins-else-first-base (call_component, metas_first_base, caller_pmap). Model = code by "
+              "table, which is own-wins-else-first-base (call_component, metas_first_base, caller_pmap); the calling wrapper "
+              "is found on an explicit model of Python's frame stack (names, innermost first; ordinary bodies run inside "
+              "the logging decorator, generator / coroutine bodies run on the stack of whoever drives them, helper frames "
+              "on top): the walk stops at the innermost frame named like a wrapper whatever lies outside it "
+              "(frame_meta_innermost), the body of a wrapper that makes its request itself gets its own component on top "
+              "of any frames (deferred_body_own_component), and every wrapper call - any mix of ordinary / generator / "
+              "coroutine bodies, handing on or driving, helpers - ends in the entry of the wrapper whose body makes the "
+              "request and is never left undriven (call_component_innermost, nested_call_innermost). Model = code by "
               "differential runs of operation histories with urllib's opener captured; independent oracle re-states every "
               "clause on the real Requests / returned values and re-issues a probe through every connection after every "
               "operation.")
@@ -2148,7 +2301,12 @@ LEVEL_NOTE = ("The aliasing structure of the model (a new dict object for Reques
               "theorems): that the Python classes behave as the model on histories not "
               "generated; json.loads of the response enters the model as a parsed value; header-name case functions are "
               "ASCII. Literals (header names, 'Basic ', 'Bearer ', default methods) are regenerated from the source on "
-              "every run. HTTPError responses and logging are not modelled (not part of the statement).")
+              "every run. HTTPError responses and logging are not modelled (not part of the statement). "
+              "Frame stack of wrapper calls: frames are names only (as get_mcaller_meta sees them); the theorems assume that "
+              "get_conn and the helper functions are not themselves names of wrappers; plain code is modelled as frames not "
+              "named like a wrapper. A generator / coroutine wrapper's result is always driven within the same `call` "
+              "operation (by plain code, or inside / after another wrapper): keeping an undriven object across other "
+              "operations of the history, generators advanced more than once, and real event loops are not issued.")
 TECHNIQUE = ("Lean 4 heap model with separation invariant + frame lemmas + refinement of the header-object loop to a "
              "pure loop; translator for literals; stateful correspondence driver; declarative layering oracle with probe "
              "re-issue")
